@@ -82,7 +82,7 @@ Print Assumptions coverage_complete.
 (* ... and a specified builtin has the expected signature and a row in both
    run-time tables, so the table theorems say something about it. *)
 Theorem specified_present :
-  Forall (fun p => present bval_sig fint_tbl genc_tbl (fst p) (snd p)) sop_table.
+  Forall (fun p => present (bval_sig ++ bval_comp_sig) fint_tbl genc_tbl (fst p) (snd p)) sop_table.
 Proof. exact specified_present_l. Qed.
 Print Assumptions specified_present.
 
